@@ -570,7 +570,9 @@ def EXHAUSTIVE(tier):
 
 INTERLEAVED = [("I:logon",), ("I:logon", "I:logout"), ("A", "X:drop"), ("R:resend", "X:drop", "A"), ("R:resend", "X:logout", "A"), ("A", "H"),
                # the connection ends while the endpoint's own reply (Logon answer, ResendRequest for a gap, Heartbeat answer) waits in drain()
-               ("R:logon", "X:drop"), ("R:logon", "X:logout"), ("R:gap", "X:drop"), ("R:gap", "X:logout"), ("R:testreq", "X:drop")]
+               ("R:logon", "X:drop"), ("R:logon", "X:logout"), ("R:gap", "X:drop"), ("R:gap", "X:logout"), ("R:testreq", "X:drop"),
+               # ... and the frame that revealed the gap is itself a request the endpoint goes on to serve
+               ("R:gaprr", "X:drop"), ("R:gaprr", "X:logout"), ("R:gaptr", "X:drop")]
 
 
 def interleaved_one(acc, tasks, schedule):
